@@ -29,6 +29,11 @@ def run(ctx):
                     jobs.append(('%s_w%d_%s%d' % (name, w, s, len(xs)), src, [s] + xs, w, 100, False, 100000))
                 continue
             conf.append(('c_%s_w%d' % (name, w), src, ['1', '2'], w, 100, False, 100000))
+            if name.startswith('lit'):
+                # one operand is a literal: the second argument is not used, sweep the first
+                for a in (vals if (w == 2 or not ctx.quick) else ctx.rng.sample(vals, 6)):
+                    jobs.append(('%s_w%d_%d' % (name, w, a), src, [str(a), '1'], w, 100, False, 200000))
+                continue
             for a, b in pairs:
                 jobs.append(('%s_w%d_%d_%d' % (name, w, a, b), src, [str(a), str(b)], w, 100, False, 200000))
     suites.conformance(ctx, conf)
